@@ -36,6 +36,15 @@ def cross [Mul α] [Sub α] (a b : P2 α) : α := a.x * b.y - a.y * b.x
 negative = clockwise. -/
 def orient [Mul α] [Sub α] (a b c : P2 α) : α := (b.x - a.x) * (c.y - a.y) - (b.y - a.y) * (c.x - a.x)
 
+/-- The similarity `p ↦ (a·x − b·y + e, b·x + a·y + f)`: rotation by the angle of `(a,b)`,
+scaling by `|(a,b)|`, translation by `(e,f)` — every orientation-preserving rigid placement and
+every change of the unit of length is of this form. -/
+def simMap [Mul α] [Sub α] [Add α] (a b e f : α) (p : P2 α) : P2 α :=
+  ⟨a * p.x - b * p.y + e, b * p.x + a * p.y + f⟩
+
+/-- Change of the unit of length: multiply both coordinates by `k`. -/
+def scaleP [Mul α] (k : α) (p : P2 α) : P2 α := ⟨k * p.x, k * p.y⟩
+
 /-- Σ of shoelace terms along an open path. -/
 def pathSum [Mul α] [Sub α] [Add α] [OfNat α 0] : List (P2 α) → α
   | a :: b :: t => cross a b + pathSum (b :: t)
